@@ -96,38 +96,88 @@ def _classes():
         def forward(self, x):
             return self.c(torch.tanh(self.c(x)))
 
+    class Container(nn.Module):               # a plain name space (never called)
+        pass
+
     class GenNet(nn.Module):
+        """Modules are registered under the qualified names of the abstract network (resolve_names) and
+        invoked through `self._roles` (a plain dict), so that forward is independent of the naming: torch.fx
+        finds the qualified name of each called module by identity."""
+
         def __init__(self, net, blocks):
             super().__init__()
             C = net["C"]
-            self.plan = [(b["uses"], bool(b.get("pool")), bool(b.get("nest"))) for b in net["blocks"]]
-            self.stem = nn.Conv2d(2, C, 3, padding='same')
-            self.bn0 = nn.BatchNorm2d(C)
+            nb = len(blocks)
+            self.plan = [(b["uses"], bool(b.get("pool"))) for b in net["blocks"]]
+            bnames, fnames, tanh = resolve_names(net)
+            roles = {"stem": nn.Conv2d(2, C, 3, padding='same'), "bn0": nn.BatchNorm2d(C)}
+            for i in range(nb):
+                roles[f"mid{i}"] = nn.Conv2d(C, C, 1)
+            roles["head"] = nn.Conv2d(C, 3, 3, padding='same', bias=False)
+            roles["fc"] = nn.Linear(3, 2)
+            order = ["stem", "bn0"] + [f"mid{i}" for i in range(nb)] + ["head", "fc"]
+            self.n_extra = len(fnames) - len(order)
+            for j in range(self.n_extra):                     # extra fixed 1x1 convs before the head
+                roles[f"extra{j}"] = nn.Conv2d(C, C, 1, bias=(j % 2 == 0))
+                order.append(f"extra{j}")
             for i, blk in enumerate(blocks):
-                if self.plan[i][2]:
-                    setattr(self, f"wrap{i}", nn.Sequential(blk, nn.Tanh()))
-                else:
-                    setattr(self, f"b{i}", blk)
-                setattr(self, f"mid{i}", nn.Conv2d(C, C, 1))
-            self.head = nn.Conv2d(C, 3, 3, padding='same', bias=False)
-            self.fc = nn.Linear(3, 2)
+                roles[f"blk{i}"] = blk
+            where = dict(zip(order, fnames))
+            where.update({f"blk{i}": bnames[i] for i in range(nb)})
+            for i, t in tanh.items():
+                roles[f"tanh{i}"] = nn.Tanh()
+                where[f"tanh{i}"] = t
+            self.has_tanh = set(tanh)
+            allnames = list(where.values())
+            created = []
+            for role, dotted in where.items():
+                atoms = dotted.split(".")
+                cur = self
+                for k in range(len(atoms) - 1):
+                    nxt = cur._modules.get(atoms[k])
+                    if nxt is None:
+                        pre = ".".join(atoms[:k + 1]) + "."
+                        kids = {n[len(pre):].split(".")[0] for n in allnames if n.startswith(pre)}
+                        nxt = nn.Sequential() if all(x.isdigit() for x in kids) else Container()
+                        cur.add_module(atoms[k], nxt)
+                        if isinstance(nxt, nn.Sequential):
+                            created.append(nxt)
+                    cur = nxt
+                cur.add_module(atoms[-1], roles[role])
+            for sq in created:                                # a long nn.Sequential: >= 12 numeric children
+                top = max(11, max(int(k) for k in sq._modules))
+                for k in range(top + 1):
+                    if str(k) not in sq._modules:
+                        sq.add_module(str(k), nn.Identity())
+                items = sorted(sq._modules.items(), key=lambda kv: int(kv[0]))
+                sq._modules.clear()
+                for k, m in items:
+                    sq._modules[k] = m
+            self._roles = roles
 
         def forward(self, x):
-            x = self.bn0(self.stem(x))
-            for i, (uses, pool, nest) in enumerate(self.plan):
-                blk = getattr(self, f"wrap{i}" if nest else f"b{i}")
+            r = self._roles
+            x = r["bn0"](r["stem"](x))
+            for i, (uses, pool) in enumerate(self.plan):
+                blk = r[f"blk{i}"]
                 x = blk(x)
+                if i in self.has_tanh:
+                    x = r[f"tanh{i}"](x)
                 if uses == 2:
                     x = torch.relu(x)
                     if pool:
                         x = F.avg_pool2d(x, 2)
                     x = blk(x)
-                x = torch.relu(getattr(self, f"mid{i}")(x))
-            x = self.head(x)
-            return self.fc(x.mean((2, 3)))
+                    if i in self.has_tanh:
+                        x = r[f"tanh{i}"](x)
+                x = torch.relu(r[f"mid{i}"](x))
+            for j in range(self.n_extra):
+                x = torch.tanh(r[f"extra{j}"](x))
+            x = r["head"](x)
+            return r["fc"](x.mean((2, 3)))
 
     _CLASSES.update(UBModTail=UBModTail, UBNested=UBNested, UBFuncAdd=UBFuncAdd, UBFuncRelu=UBFuncRelu,
-                    UBFuncMethod=UBFuncMethod, UBReuse=UBReuse, GenNet=GenNet)
+                    UBFuncMethod=UBFuncMethod, UBReuse=UBReuse, GenNet=GenNet, Container=Container)
     return _CLASSES
 
 
@@ -164,8 +214,46 @@ def make_branch(kind: str, C: int, pos: int):
     raise ValueError(kind)
 
 
+# names of the fixed layers of the design-level family "collide" (SNLife!CollidingFixedNames, role order:
+# stem, batch-norm, one 1x1 conv per block, head, classifier, extra 1x1 convs) and its block-name pool
+COLLIDING_FIXED = ["c", "f.0", "c10", "c2_p", "f.10", "g.c10", "c1_pw", "f.11", "h.c1", "h.conv1", "h.0", "h.c",
+                   "sn_h", "k.dsn_c"]
+BLOCK_NAME_POOL = ["c1", "c2", "f.1", "g.c1"]
+RESERVED = "sn_branches"
+
+
+def resolve_names(net: Dict[str, Any]):
+    """(block names, fixed-layer names in role order, {block index: name of its Tanh sibling}).
+    net["names"] = {"blocks": [...], "fixed": [...]} (qualified, dotted) overrides the plain default."""
+    nb = len(net["blocks"])
+    nm = net.get("names")
+    if nm:
+        if len(nm["blocks"]) != nb or len(nm["fixed"]) < nb + 4:
+            raise ValueError("names do not fit the network")
+        return list(nm["blocks"]), list(nm["fixed"]), {}
+    bn = [f"wrap{i}.0" if net["blocks"][i].get("nest") else f"b{i}" for i in range(nb)]
+    tanh = {i: f"wrap{i}.1" for i in range(nb) if net["blocks"][i].get("nest")}
+    return bn, ["stem", "bn0"] + [f"mid{i}" for i in range(nb)] + ["head", "fc"], tanh
+
+
+def names_ok(bnames: List[str], fnames: List[str]) -> bool:
+    """All qualified names distinct and none is a container (dotted ancestor) of another."""
+    al = list(bnames) + list(fnames)
+    if len(set(al)) != len(al):
+        return False
+    return not any(a != b and b.startswith(a + ".") for a in al for b in al)
+
+
+def chars(name: str) -> List[str]:
+    return list(name)
+
+
+def prefix_collision(bnames: List[str], fnames: List[str]) -> bool:
+    return any(f.startswith(b) for b in bnames for f in fnames)
+
+
 def block_prefix(net: Dict[str, Any], b: int) -> str:
-    return f"wrap{b}.0" if net["blocks"][b].get("nest") else f"b{b}"
+    return resolve_names(net)[0][b]
 
 
 def build(net: Dict[str, Any], seed: int):
@@ -239,17 +327,21 @@ def cost_tables(net: Dict[str, Any], model, x) -> Dict[str, Any]:
                 "ops": [per call site: ops summed over ALL invocations of the branch's layers],
                 "uops": [per call site: ops summed over the branch's layers counted once each],
                 "leafs": number of leaf modules of the branch, "reuse": some layer invoked twice per call}
-    fixed = {"par", "ops"} for the layers outside choice blocks."""
+    fixed = {"par", "ops"} for the layers outside choice blocks; fixedl = the same per layer, with its name."""
     rec = measure_invocations(model, x)
-    out: Dict[str, Any] = {"ct": [], "fixed": {"par": 0, "ops": 0}}
+    out: Dict[str, Any] = {"ct": [], "fixed": {"par": 0, "ops": 0}, "fixedl": []}
+    # structural classification: a layer is inside a block iff it lives under <block>.sn_branches.<i>
+    # (dotted path components, so that look-alike names of fixed layers are never confused)
     prefixes = [block_prefix(net, b) + ".sn_branches." for b in range(len(net["blocks"]))]
-    seen_fixed = set()
+    per_fixed: Dict[str, Dict[str, int]] = {}
     for name, numel, ops in rec:
         if not any(name.startswith(p) for p in prefixes):
-            if name not in seen_fixed:
-                seen_fixed.add(name)
-                out["fixed"]["par"] += numel
-            out["fixed"]["ops"] += ops
+            d = per_fixed.setdefault(name, {"par": numel, "ops": 0})
+            d["ops"] += ops
+    for name, d in per_fixed.items():
+        out["fixed"]["par"] += d["par"]
+        out["fixed"]["ops"] += d["ops"]
+        out["fixedl"].append({"name": chars(name), "par": d["par"], "ops": d["ops"]})
     named = dict(model.named_modules())
     for b, blk in enumerate(net["blocks"]):
         row = []
@@ -371,8 +463,14 @@ class Driver:
             raise TooBig(str(tot))
         self.specs = {"params": params, "ops": ops}
         self.single = "params" if net.get("single") else None     # single CostSpec + `.cost` + setter
-        self.sn = SuperNet(self.model, cost=params if self.single else dict(self.specs),
-                           input_example=self.x[:1], full_cost=False)
+        self.construct_err = ""
+        try:
+            self.sn = SuperNet(self.model, cost=params if self.single else dict(self.specs),
+                               input_example=self.x[:1], full_cost=False)
+        except Exception as e:                                   # noqa: BLE001 - observed; judged by the spec
+            self.sn = None
+            self.construct_err = type(e).__name__
+            return
         self.sn.train()
         named = dict(self.sn.seed.named_modules())
         self.combs = []
@@ -390,7 +488,8 @@ class Driver:
     def net_record(self) -> Dict[str, Any]:
         n = self.net
         return {"gumbel": bool(n.get("gumbel")), "hard0": bool(n.get("hard0")),
-                "fixed": self.tabs["fixed"],
+                "fixed": self.tabs["fixed"], "fixedl": self.tabs["fixedl"],
+                "names": [chars(x) for x in resolve_names(n)[0]],
                 "blocks": [{"kinds": list(b["kinds"]), "uses": b["uses"], "pool": bool(b.get("pool")),
                             "ct": self.tabs["ct"][i]} for i, b in enumerate(n["blocks"])]}
 
@@ -608,8 +707,13 @@ def concrete_net(skel: Dict[str, Any], idx: int) -> Dict[str, Any]:
     for j, b in enumerate(skel["blocks"]):
         blocks.append({"kinds": list(b["kinds"]), "uses": int(b["uses"]), "pool": bool(b["pool"]),
                        "nest": (idx + j) % 3 == 1})
-    return {"C": 2 + idx % 2, "hw": 4, "gumbel": bool(skel["gumbel"]), "hard0": bool(skel["hard0"]),
-            "single": idx % 4 == 2, "blocks": blocks}
+    net = {"C": 2 + idx % 2, "hw": 4, "gumbel": bool(skel["gumbel"]), "hard0": bool(skel["hard0"]),
+           "single": idx % 4 == 2, "blocks": blocks}
+    if skel.get("naming"):                   # design-level family "collide": block names chosen by TLC
+        net["names"] = {"blocks": ["".join(n) for n in skel["naming"]], "fixed": list(COLLIDING_FIXED)}
+        for b in blocks:
+            b["nest"] = False
+    return net
 
 
 def cost4() -> List[Dict[str, Any]]:
@@ -685,8 +789,46 @@ def random_net(rng, tier: str) -> Dict[str, Any]:
         if pool:
             hw //= 2
         blocks.append({"kinds": kinds, "uses": uses, "pool": pool, "nest": rng.random() < 0.3})
-    return {"C": rng.choice([2, 3, 4]), "hw": hw0, "gumbel": rng.random() < 0.3,
-            "hard0": rng.random() < 0.3, "single": rng.random() < 0.3, "blocks": blocks}
+    net = {"C": rng.choice([2, 3, 4]), "hw": hw0, "gumbel": rng.random() < 0.3,
+           "hard0": rng.random() < 0.3, "single": rng.random() < 0.3, "blocks": blocks}
+    if rng.random() < 0.5:
+        nm = random_names(rng, nb)
+        if nm:
+            net["names"] = nm
+            for b in blocks:
+                b["nest"] = False
+    return net
+
+
+def random_names(rng, nb: int):
+    """Adversarial naming: fixed layers whose names extend block names (conv1 / conv10 / conv1_pw), numeric
+    siblings in a long Sequential (features.1 / features.10), same leaf names in other containers, names that
+    contain 'sn_', a fixed layer that is a prefix of a block name; rarely the reserved attribute name."""
+    pool = ["conv1", "c1", "features.1", "stage.conv1", "m.2", "layer1.0", "block", "sn_blk", "features.2"]
+    bn = rng.sample(pool, nb)
+    cands = []
+    for b in bn:
+        head, _, leaf = b.rpartition(".")
+        pre = head + "." if head else ""
+        cands += [b + "0", b + "_pw", b + "1", pre + leaf[:-1] if len(leaf) > 1 else pre + "q",
+                  "other." + leaf, "deep.er." + leaf, pre + "0", "x." + leaf + "0"]
+    cands += ["sn_head", "pre_sn_", "a.conv", "a.conv1", "a.conv2", "a.c", "a.0", "a.3", "stem", "head", "fc", "z9",
+              "features.0", "features.10", "features.11", "features.12"]
+    if rng.random() < 0.04:
+        cands = [RESERVED + "_proj"] + cands
+        first = [cands[0]]
+    else:
+        first = []
+    rng.shuffle(cands)
+    fixed: List[str] = []
+    for c in first + cands:
+        if c and c not in fixed and names_ok(bn, fixed + [c]):
+            fixed.append(c)
+        if len(fixed) >= nb + 4 + rng.choice([0, 2, 5]):
+            break
+    if len(fixed) < nb + 4 or not names_ok(bn, fixed):
+        return None
+    return {"blocks": bn, "fixed": fixed}
 
 
 def random_alpha(rng, n: int) -> List[int]:
@@ -745,8 +887,13 @@ def execute(sc: Dict[str, Any]) -> Dict[str, Any]:
         d = Driver(sc["net"], sc["seed"])
     except TooBig as e:
         return {"skipped": "too-big " + str(e)}
+    if d.sn is None:                         # SuperNet(...) raised: the spec decides whether that is acceptable
+        n = sc["net"]
+        a0 = [[SCALE // len(b["kinds"])] * len(b["kinds"]) for b in n["blocks"]]
+        return {"prop": sc["prop"], "net": d.net_record(), "alpha0": a0,
+                "ev": [{"a": "construct", "ok": False, "err": d.construct_err}]}
     alpha0 = d.alpha()
-    ev = [d.do(dict(e)) for e in sc["events"]]
+    ev = [{"a": "construct", "ok": True, "err": ""}] + [d.do(dict(e)) for e in sc["events"]]
     return {"prop": sc["prop"], "net": d.net_record(), "alpha0": alpha0, "ev": ev}
 
 
@@ -831,6 +978,9 @@ def run_check(pid: str, tier: str, seed: int, replay, plan: Dict[str, Any]) -> i
         kept_t.append(t)
     R.extra["scenario_sources"] = counts
     R.extra["skipped_too_big"] = skipped
+    R.extra["scenarios_with_name_prefix_collision"] = sum(
+        1 for s in kept_s if prefix_collision(*resolve_names(s["net"])[:2]))
+    R.extra["models_rejected_at_construction"] = sum(1 for t in kept_t if not t["ev"][0]["ok"])
     n_exp = sum(1 for t in kept_t for e in t["ev"] if e["a"] == "export")
     n_exp_ok = sum(1 for t in kept_t for e in t["ev"] if e["a"] == "export" and e["ok"])
     n_cost = sum(1 for t in kept_t for e in t["ev"] if e["a"] == "cost")
